@@ -121,6 +121,12 @@ class Conn(object):
     def readable(self, now):
         return self.rpos < self.avail_end(now) or self.term_now(now) is not None
 
+    def sync(self, now):
+        """let the server emit everything that is due by `now`"""
+        srv = self.server
+        if srv is not None and hasattr(srv, 'on_time'):
+            srv.on_time(now)
+
     def next_arrival(self, now):
         """Earliest time > now at which the connection becomes readable."""
         times = set(t for _off, t in self.avail if t > now)
@@ -129,6 +135,11 @@ class Conn(object):
         for t in sorted(times):
             if self.readable(t):
                 return t
+        srv = self.server
+        if srv is not None and hasattr(srv, 'next_timed'):
+            t = srv.next_timed()
+            if t is not None:
+                return max(t, now)
         return None
 
     def take(self, count, now):
@@ -322,12 +333,17 @@ class SimSocket(object):
             w.rec('recv_fault', self.sid, f)
             raise _mkerr(f)
         conn = self.conn
-        if not conn.readable(w.now):
+        conn.sync(w.now)
+        guard = 0
+        while not conn.readable(w.now):
             # blocking read with nothing there: wait for the next arrival
+            guard += 1
             t = conn.next_arrival(w.now)
             tmo = blocking_timeout
-            if t is not None and (tmo is None or t <= w.now + tmo):
-                w.now = t
+            if guard < 1000 and t is not None and (tmo is None or t <= w.now + tmo):
+                w.now = max(w.now, t)
+                conn.sync(w.now)
+                continue
             elif tmo is not None:
                 w.now += tmo
                 w.rec('recv_fault', self.sid, 'timeout')
@@ -544,28 +560,34 @@ class SimSelector(lomond.selectors.SelectorBase):
         if conn is None or sock.closed:
             w.rec('wait_closed', sock.sid, None)
             raise OSError(errno.EBADF, 'Bad file descriptor')
+        conn.sync(w.now)
         if conn.readable(w.now):
             w.rec('wait', sock.sid, ('ready', timeout))
             return True
-        t_next = conn.next_arrival(w.now)
-        if timeout is None:
-            timeout = float('inf')
-        if t_next is not None and t_next <= w.now + timeout:
-            w.rec('wait', sock.sid, ('arrive', timeout, t_next))
-            w.now = t_next
-            return True
-        if (t_next is None and w.now >= w.horizon) or timeout == float('inf'):
+        forever = timeout is None
+        deadline = float('inf') if forever else w.now + max(0.0, timeout)
+        guard = 0
+        while guard < 10000:
+            guard += 1
+            t_next = conn.next_arrival(w.now)
+            if t_next is None or t_next > deadline:
+                break
+            w.now = max(w.now, t_next)
+            conn.sync(w.now)
+            if conn.readable(w.now):
+                w.rec('wait', sock.sid, ('arrive', timeout, t_next))
+                return True
+        if forever or (t_next is None and w.now >= w.horizon):
             w.rec('wait', sock.sid, ('quiesce', timeout))
             raise Quiesced('silent peer at t=%r' % w.now)
-        # a real block for the full timeout
+        # a real block until the timeout expires
         w.blocked_waits += 1
         plain = getattr(sock, 'plain', None)
         if plain:
             w.blocked_with_pending.append((w.now, len(plain)))
         w.rec('wait', sock.sid, ('timeout', timeout))
-        if timeout <= 0:
-            return False
-        w.now += timeout
+        w.now = max(w.now, deadline)
+        conn.sync(w.now)
         return False
 
     def close(self):
@@ -627,13 +649,17 @@ class ScriptServer(object):
       ('proxy', reply_bytes | callable(request)->bytes)   await one request block, reply
       ('hs', spec)        await upgrade request, reply per spec (dict for ref.http
                           or bytes or callable(request_bytes)->bytes)
-      ('raw', bytes)      queue bytes at the current send time
+      ('raw', bytes)      send bytes at the script's current send time
       ('eof',) ('err', kind)
-      ('delay', dt) ('at', t)
-      ('await_close',)    block until the client's Close frame arrived
+      ('delay', dt) ('at', t)      move the script's send time (relative / absolute)
+      ('await_close',)    block until the client's Close frame arrived (send time := then)
       ('await_frames', n) block until n client frames arrived
       ('echo_close',)     send Close echoing the client's close code
       ('pong_mode', delay|None, until|None)  answer client pings from now on
+
+    Everything with a future send time sits in a time-ordered queue and is put on the
+    wire only when the virtual clock gets there, so timed data and reactive replies
+    interleave as they would on a real connection.
     """
 
     def __init__(self, steps):
@@ -649,6 +675,8 @@ class ScriptServer(object):
         self.pong_until = None
         self.close_frame = None
         self._parsed = 0
+        self.timed = []
+        self._seq = 0
 
     def attach(self, conn, world):
         self.conn = conn
@@ -656,6 +684,26 @@ class ScriptServer(object):
         self.t_send = world.now
         self._advance()
 
+    # -- time-ordered output queue ------------------------------------
+    def send_at(self, t, kind, payload=None):
+        import heapq
+        self._seq += 1
+        heapq.heappush(self.timed, (t, self._seq, kind, payload))
+        self.on_time(self.world.now)
+
+    def next_timed(self):
+        return self.timed[0][0] if self.timed else None
+
+    def on_time(self, now):
+        import heapq
+        while self.timed and self.timed[0][0] <= now:
+            t, _s, kind, payload = heapq.heappop(self.timed)
+            if kind == 'data':
+                self.conn.emit(payload, t)
+            else:
+                self.conn.end(kind, t)
+
+    # -- input ----------------------------------------------------------
     def on_write(self, data):
         conn = self.conn
         new = bytes(conn.tx[self._parsed:])
@@ -674,8 +722,7 @@ class ScriptServer(object):
                 self.close_frame = fr
             if fr['opcode'] == 9 and self.pong_delay is not None:
                 if self.pong_until is None or self.world.now <= self.pong_until:
-                    at = max(self.t_send, self.world.now + self.pong_delay)
-                    self.conn.emit(refws.enc_frame(10, fr['payload']), at)
+                    self.send_at(self.world.now + self.pong_delay, 'data', refws.enc_frame(10, fr['payload']))
 
     def _take_request(self):
         idx = self.inb.find(b'\r\n\r\n')
@@ -696,7 +743,7 @@ class ScriptServer(object):
                 req = self._take_request()
                 if req is None:
                     return
-                self.t_send = max(self.t_send, w.now)
+                self.t_send = w.now
                 spec = st[1]
                 if callable(spec):
                     reply = spec(req)
@@ -710,13 +757,14 @@ class ScriptServer(object):
                     del self.inb[:]
                     if rest:
                         self._feed_frames(rest)
-                self.conn.emit(reply, self.t_send)
+                self.send_at(self.t_send, 'data', reply)
             elif op == 'raw':
-                self.conn.emit(st[1], self.t_send)
+                if st[1]:
+                    self.send_at(self.t_send, 'data', st[1])
             elif op == 'eof':
-                self.conn.end('eof', self.t_send)
+                self.send_at(self.t_send, 'eof')
             elif op == 'err':
-                self.conn.end(st[1], self.t_send)
+                self.send_at(self.t_send, st[1])
             elif op == 'delay':
                 self.t_send += st[1]
             elif op == 'at':
@@ -724,14 +772,14 @@ class ScriptServer(object):
             elif op == 'await_close':
                 if self.close_frame is None:
                     return
-                self.t_send = max(self.t_send, w.now)
+                self.t_send = w.now
             elif op == 'await_frames':
                 if len(self.frames) < st[1]:
                     return
-                self.t_send = max(self.t_send, w.now)
+                self.t_send = w.now
             elif op == 'echo_close':
                 code = self.close_frame['payload'][:2] if self.close_frame else b''
-                self.conn.emit(refws.enc_frame(8, code), self.t_send)
+                self.send_at(self.t_send, 'data', refws.enc_frame(8, code))
             elif op == 'pong_mode':
                 self.pong_delay = st[1]
                 self.pong_until = st[2] if len(st) > 2 else None
